@@ -128,11 +128,20 @@ class Gen:
         self.budget = self.rng.randint(*self.size)
         root = Frame("root", None)
         body = []
+        maps = []
         if self.rom == "map":
             self.map_cfg = self.rng.choice(self.MAPS)
-            body += [{"k": "map", "args": dict(m)} for m in self.map_cfg]
+            maps = [{"k": "map", "args": dict(m)} for m in self.map_cfg]
+        late = bool(maps) and self.rng.random() < 0.3
+        if not late:
+            body += maps
         body += [{"k": "org", "e": E(self.rom_addr())}]
-        body += self.body(root, 0, self.budget)
+        rest = self.body(root, 0, self.budget)
+        if late:
+            # the mapping of a program applies to all of it, wherever its .map lines stand (e.g. in a file included later)
+            k = self.rng.randint(0, min(4, len(rest)))
+            rest = rest[:k] + maps + rest[k:]
+        body += rest
         return {"prog": body, "files": dict(self.files), "tables": dict(self.tables), "rom": self.rom}
 
     # ------------------------------------------------------------------ references
